@@ -958,7 +958,7 @@ def units(ctx, prop):
     us = []
     for alg, spec, m, K, cfg in stub_configs(ctx, prop):
         horizon = 6 if alg not in ("PaVeBa", "Auer") else (10 if alg == "PaVeBa" else 30)
-        us.append(("stubrun", prop, alg, spec, m, K, cfg, horizon, 1, ctx.seed))
+        us.append(("stubrun", prop, alg, spec, m, K, cfg, horizon, 2 if (ctx.thorough and alg not in ("PaVeBa",)) else 1, ctx.seed))
     for alg, spec, m, K, cfg, depth in real_configs(ctx, prop):
         us.append(("realrun", prop, alg, spec, m, K, cfg, depth, ctx.seed))
     if prop == "C07":
